@@ -129,4 +129,16 @@ theorem generated_hasExpired (expiry now a : Int) (c : CEntry)
         simp [he, hpos, hl]
   · simp
 
+/-! ### T1: the functions the model transcribes, statement by statement (white space collapsed) -/
+
+def expected_Store_snapshotActive : List String := ["s.active.Lock()", "defer s.active.Unlock()", "m := make(map[string]secretState)", "for name, cs := range s.active.m { _, pinned := s.active.f[name] m[name] = secretState{ expired: !pinned && s.hasExpired(cs), version: cs.Secret.Version, } }", "return m"]
+
+/-- the poll's snapshot, under the lock: a secret counts as expired only if no handle pins it and hasExpired says so -/
+theorem fact_Store_snapshotActive_as_transcribed : Facts.body_Store_snapshotActive = expected_Store_snapshotActive := by rfl
+
+def expected_Store_hasExpired : List String := ["if cs.Declared { return false } else if s.expiryAge <= 0 { return false }", "age := s.timeNow().UTC().Sub(cs.lastAccessTime())", "return age > s.expiryAge"]
+
+/-- hasExpired: never for a declared secret, never without an expiry age; otherwise when the time since the last access exceeds the age -/
+theorem fact_Store_hasExpired_as_transcribed : Facts.body_Store_hasExpired = expected_Store_hasExpired := by rfl
+
 end Setec.C19
